@@ -21,6 +21,25 @@
 (* Domain (DESIGN section 3, no ties): the content determines the residue  *)
 (* name, at most one [ template ] per content and one [ volumes ] line per *)
 (* residue name.                                                           *)
+(*                                                                         *)
+(* Keys.  The key of a residue is computed at two places of the code: by   *)
+(* the build-file parser when a [ template ] section ends (ParseKey) and   *)
+(* when the residues of a molecule are annotated (TagKey, both the default *)
+(* and the -skip_filter path).  The tables are indexed by the KEY SPACE;   *)
+(* in the intended design both functions are the identity on the contents  *)
+(* (KeySitesAgree), so the template the parser filed IS the template the   *)
+(* residue is mapped to.  The P-layer is phrased over the key a residue    *)
+(* actually carries (tag), never over the key the parser used.             *)
+(*                                                                         *)
+(* Processor memory.  GenerateTemplates owns ONE table for the whole       *)
+(* system (self.templates), handed to every molecule; tmpl is that table.  *)
+(* History variables make the sharing observable: ngen[h] counts how often *)
+(* a template for key h was generated, held[m][h] is the version of the    *)
+(* template molecule m refers to under key h (-1 none, 0 the user's, n the *)
+(* n-th generated one), vver[h] the version the computed size of h was     *)
+(* derived from.  Laws: GeneratedOnce, OneTemplatePerKey, SizeBelongs.     *)
+(* nobld distinguishes "no build file at all" (no table attached to the    *)
+(* molecules before generation) from an empty build file.                  *)
 (***************************************************************************)
 EXTENDS TemplatesLib
 
@@ -30,14 +49,26 @@ CONSTANTS Content,      \* key id -> [rn |-> resname, g |-> residue graph, u |->
           DevVolLost,        \* deviation (repaired finding F21 user-volume-lost-for-other-variant): r2h keeps one key per residue name and Finalize deletes vols[rn]
           DevVolOverwritten, \* deviation: generation ignores a user volume (mutant m43)
           DevUserRegen,      \* deviation: a user template is generated again
-          DevRecentre        \* deviation: user coordinates re-centred around another point (the first atom)
+          DevRecentre,       \* deviation: user coordinates re-centred around another point (the first atom)
+          DevKeySites,       \* deviation: the annotation site refines the key of a large residue, the parser site does not
+          DevProcForgets,    \* deviation: GenerateTemplates remembers only the table of the molecule at hand
+          LargeN             \* number of atoms from which on a residue is "large" (matters with DevKeySites only)
 
-VARIABLES sys, bld, pc, vols, tmpl, r2h, tag
-vars == <<sys, bld, pc, vols, tmpl, r2h, tag>>
+VARIABLES sys, bld, nobld, pc, vols, tmpl, r2h, tag, ngen, held, vver
+vars == <<sys, bld, nobld, pc, vols, tmpl, r2h, tag, ngen, held, vver>>
 
 Keys == DOMAIN Content
 Resnames == { Content[k].rn : k \in Keys }
-Slots == Keys \cup Resnames
+\* ---- the key function at its two call sites
+Large(k) == Content[k].g.n >= LargeN
+Alt(k) == k \o "~"                                   \* the refined key of content k (exists with DevKeySites only)
+AltKeys == IF DevKeySites THEN { Alt(k) : k \in { x \in Keys : Large(x) } } ELSE {}
+KeySpace == Keys \cup AltKeys
+Base(h) == IF h \in Keys THEN h ELSE CHOOSE k \in Keys : Alt(k) = h      \* the content a key stands for
+ParseKey(k) == k                                                          \* build_file_parser: end of a [ template ] section
+TagKey(k) == IF DevKeySites /\ Large(k) THEN Alt(k) ELSE k                \* group_residues_by_hash / _extract_template_graphs
+RnOf(h) == Content[Base(h)].rn
+Slots == KeySpace \cup Resnames
 NoVal == [src |-> "none", v |-> 0]
 UserVal(v) == [src |-> "user", v |-> v]
 Computed == [src |-> "computed", v |-> 0]
@@ -45,10 +76,19 @@ NoTmpl == [src |-> "none", how |-> "-"]
 NodesOf(s) == UNION { { <<m, i>> : i \in 1..Len(s[m]) } : m \in 1..Len(s) }
 KeyAt(s, nd) == s[nd[1]][nd[2]]
 
+NoHeld == [h \in KeySpace |-> -1]
+\* the version of the template of key h in a table t: -1 none, 0 the user's, n the n-th generated one
+VerIn(t, g, h) == IF t[h].src = "none" THEN -1 ELSE IF t[h].src = "user" THEN 0 ELSE g[h]
+StartPc(s, b, nb) == IF nb THEN (IF Len(s) = 0 THEN [phase |-> "done", i |-> 1] ELSE [phase |-> "gen", i |-> 1])
+                     ELSE [phase |-> IF Len(b) = 0 THEN "finalize" ELSE "parse", i |-> 1]
+InitTables(s) == /\ vols = [x \in Slots |-> NoVal] /\ tmpl = [k \in KeySpace |-> NoTmpl] /\ r2h = [rn \in Resnames |-> {}]
+                 /\ tag = [nd \in NodesOf(s) |-> "none"]
+                 /\ ngen = [h \in KeySpace |-> 0] /\ vver = [h \in KeySpace |-> 0]
+                 /\ held = [m \in 1..Len(s) |-> NoHeld]
 Init == /\ sys \in Systems /\ bld \in BuildFiles
-        /\ pc = [phase |-> IF Len(bld) = 0 THEN "finalize" ELSE "parse", i |-> 1]
-        /\ vols = [s \in Slots |-> NoVal] /\ tmpl = [k \in Keys |-> NoTmpl] /\ r2h = [rn \in Resnames |-> {}]
-        /\ tag = [nd \in NodesOf(sys) |-> "none"]
+        /\ nobld \in (IF Len(bld) = 0 THEN BOOLEAN ELSE {FALSE})
+        /\ pc = StartPc(sys, bld, nobld)
+        /\ InitTables(sys)
 
 AfterParse(i) == IF i = Len(bld) THEN [phase |-> "finalize", i |-> 1] ELSE [phase |-> "parse", i |-> i + 1]
 
@@ -56,35 +96,48 @@ AfterParse(i) == IF i = Len(bld) THEN [phase |-> "finalize", i |-> 1] ELSE [phas
 ParseVolume == /\ pc.phase = "parse" /\ bld[pc.i].e = "V"
                /\ vols' = [vols EXCEPT ![bld[pc.i].rn] = UserVal(bld[pc.i].v)]
                /\ pc' = AfterParse(pc.i)
-               /\ UNCHANGED <<sys, bld, tmpl, r2h, tag>>
+               /\ UNCHANGED <<sys, bld, nobld, tmpl, r2h, tag, ngen, held, vver>>
 \* the end of a [ template ] section: size from the template unless the key already has one, vectors from the centre of geometry
 ParseTemplate == /\ pc.phase = "parse" /\ bld[pc.i].e = "T"
-                 /\ LET k == bld[pc.i].k rn == Content[k].rn IN
+                 /\ LET k == ParseKey(bld[pc.i].k) rn == RnOf(k) IN
                       /\ vols' = IF vols[k].src = "none" THEN [vols EXCEPT ![k] = Computed] ELSE vols
                       /\ tmpl' = [tmpl EXCEPT ![k] = [src |-> "user", how |-> IF DevRecentre THEN "first" ELSE "cog"]]
                       /\ r2h' = [r2h EXCEPT ![rn] = IF DevVolLost THEN {k} ELSE @ \cup {k}]
                  /\ pc' = AfterParse(pc.i)
-                 /\ UNCHANGED <<sys, bld, tag>>
-\* the end of the build file: sizes given by residue name are filed under the key of the user template(s) of that name
+                 /\ UNCHANGED <<sys, bld, nobld, tag, ngen, held, vver>>
+\* the end of the build file: sizes given by residue name are filed under the key of the user template(s) of that name;
+\* the parser's table is attached to EVERY molecule (one object)
 Finalize == /\ pc.phase = "finalize"
             /\ vols' = [s \in Slots |->
-                          IF s \in Keys /\ s \in r2h[Content[s].rn] /\ vols[Content[s].rn].src # "none" THEN vols[Content[s].rn]
+                          IF s \in KeySpace /\ s \in r2h[RnOf(s)] /\ vols[RnOf(s)].src # "none" THEN vols[RnOf(s)]
                           ELSE IF DevVolLost /\ s \in Resnames /\ r2h[s] # {} /\ vols[s].src # "none" THEN NoVal
                           ELSE vols[s]]
+            /\ held' = [m \in 1..Len(sys) |-> [h \in KeySpace |-> VerIn(tmpl, ngen, h)]]
             /\ pc' = IF Len(sys) = 0 THEN [phase |-> "done", i |-> 1] ELSE [phase |-> "gen", i |-> 1]
-            /\ UNCHANGED <<sys, bld, tmpl, r2h, tag>>
-\* GenerateTemplates.run_molecule(m): residues are tagged with their key; keys without template get a generated one and a size
+            /\ UNCHANGED <<sys, bld, nobld, tmpl, r2h, tag, ngen, vver>>
+\* GenerateTemplates.run_molecule(m): residues are tagged with their key; keys the PROCESSOR has no template for get a
+\* generated one and a size.  The processor's table is one object: every molecule processed so far refers to it (and, after
+\* a build file, so does every other molecule: the parser's table was merged into it).
+\* DevProcForgets: the memory is the table attached to the molecule - shared after a build file, fresh without one.
 Gen == /\ pc.phase = "gen"
        /\ LET m == pc.i
-              ks == { sys[m][i] : i \in 1..Len(sys[m]) }
-              new == { k \in ks : tmpl[k].src = "none" \/ DevUserRegen }
-          IN /\ tag' = [nd \in DOMAIN tag |-> IF nd[1] = m THEN KeyAt(sys, nd) ELSE tag[nd]]
-             /\ tmpl' = [k \in Keys |-> IF k \in new THEN [src |-> "generated", how |-> "cog"] ELSE tmpl[k]]
+              ks == { TagKey(sys[m][i]) : i \in 1..Len(sys[m]) }
+              private == DevProcForgets /\ nobld
+              new == { k \in ks : private \/ tmpl[k].src = "none" \/ DevUserRegen }
+              ng == [h \in KeySpace |-> IF h \in new THEN ngen[h] + 1 ELSE ngen[h]]
+              tm == [k \in KeySpace |-> IF k \in new THEN [src |-> "generated", how |-> "cog"] ELSE tmpl[k]]
+              view == [h \in KeySpace |-> VerIn(tm, ng, h)]
+          IN /\ tag' = [nd \in DOMAIN tag |-> IF nd[1] = m THEN TagKey(KeyAt(sys, nd)) ELSE tag[nd]]
+             /\ tmpl' = tm
+             /\ ngen' = ng
              /\ vols' = [s \in Slots |-> IF s \in new
-                                         THEN (IF vols[Content[s].rn].src = "user" /\ ~DevVolOverwritten THEN vols[Content[s].rn] ELSE Computed)
+                                         THEN (IF vols[RnOf(s)].src = "user" /\ ~DevVolOverwritten THEN vols[RnOf(s)] ELSE Computed)
                                          ELSE vols[s]]
+             /\ vver' = [h \in KeySpace |-> IF h \in new THEN ng[h] ELSE vver[h]]
+             /\ held' = IF private THEN [held EXCEPT ![m] = [h \in KeySpace |-> IF h \in ks THEN view[h] ELSE -1]]
+                        ELSE [mm \in 1..Len(sys) |-> IF mm <= m \/ ~nobld THEN view ELSE held[mm]]
        /\ pc' = IF pc.i = Len(sys) THEN [phase |-> "done", i |-> 1] ELSE [phase |-> "gen", i |-> pc.i + 1]
-       /\ UNCHANGED <<sys, bld, r2h>>
+       /\ UNCHANGED <<sys, bld, nobld, r2h>>
 
 Next == ParseVolume \/ ParseTemplate \/ Finalize \/ Gen
 Spec == Init /\ [][Next]_vars
@@ -98,25 +151,48 @@ VOf(rn) == bld[CHOOSE i \in 1..Len(bld) : bld[i].e = "V" /\ bld[i].rn = rn].v
 UsedKeys == { KeyAt(sys, nd) : nd \in NodesOf(sys) }
 Done == pc.phase = "done"
 
-\* every residue carries the key of its content: same content <=> same key (the keys of the model ARE the contents)
-Tagged == Done => \A nd \in NodesOf(sys) : tag[nd] = KeyAt(sys, nd)
-\* a template given in the build file is the template of that content, anything else is generated; exactly one per used key
-UserTemplateWins == Done => \A k \in UsedKeys : tmpl[k].src = (IF HasT(k) THEN "user" ELSE "generated")
+\* the key function: the key under which the parser files a supplied template is the key the residues are annotated with
+KeySitesAgree == \A k \in Keys : ParseKey(k) = TagKey(k)
+\* every residue carries a key, and two residues carry the same key exactly when they have the same content
+Tagged == Done => /\ \A nd \in NodesOf(sys) : tag[nd] \in KeySpace /\ Base(tag[nd]) = KeyAt(sys, nd)
+                  /\ \A n1, n2 \in NodesOf(sys) : (tag[n1] = tag[n2]) <=> (KeyAt(sys, n1) = KeyAt(sys, n2))
+\* a template given in the build file is the template every residue of that content is MAPPED TO (through its own key),
+\* anything else is generated
+UserTemplateWins == Done => \A nd \in NodesOf(sys) : tmpl[tag[nd]].src = (IF HasT(KeyAt(sys, nd)) THEN "user" ELSE "generated")
 \* a size given in the build file for the residue name is the size of every residue of that name, otherwise a computed size
-UserVolumeWins == Done => \A k \in UsedKeys : vols[k] = (IF HasV(Content[k].rn) THEN UserVal(VOf(Content[k].rn)) ELSE Computed)
+UserVolumeWins == Done => \A nd \in NodesOf(sys) :
+                     LET rn == Content[KeyAt(sys, nd)].rn IN vols[tag[nd]] = (IF HasV(rn) THEN UserVal(VOf(rn)) ELSE Computed)
+\* ---- one template and size per key in the whole system
+\* a template for a key is generated at most once per system
+GeneratedOnce == \A h \in KeySpace : ngen[h] <= 1
+\* residues of the same content, in whichever molecule, are backed by the same template (same version), and by one at all
+OneTemplatePerKey == Done => \A n1, n2 \in NodesOf(sys) :
+                        /\ held[n1[1]][tag[n1]] >= 0
+                        /\ (KeyAt(sys, n1) = KeyAt(sys, n2)) => held[n1[1]][tag[n1]] = held[n2[1]][tag[n2]]
+\* a computed size belongs to the template the residue is built from
+SizeOK(nd) == vols[tag[nd]].src = "computed" => vver[tag[nd]] = held[nd[1]][tag[nd]]
+SizeBelongs == Done => \A nd \in NodesOf(sys) : SizeOK(nd)
 \* the stored user template is the user's coordinates minus their centre of geometry: zero centre, all difference vectors unchanged
-Stored(k) == IF tmpl[k].how = "cog" THEN Centred(Content[k].u)
-             ELSE [i \in 1..Len(Content[k].u) |-> RV(VSub(Content[k].u[i], Content[k].u[1]), 1)]
+\* (one atom at a time, the sum of the coordinates handed in: TLC re-evaluates a whole function value at every application)
+StoredWith(k, S, i) == LET u == Content[Base(k)].u IN
+                       IF tmpl[k].how = "cog" THEN RV(VSub(VScale(Len(u), u[i]), S), Len(u)) ELSE RV(VSub(u[i], u[1]), 1)
+StoredAt(k, i) == StoredWith(k, VSumSeq(Content[Base(k)].u, Len(Content[Base(k)].u)), i)
+Stored(k) == [i \in 1..Len(Content[Base(k)].u) |-> StoredAt(k, i)]
 UserTemplateUnchanged ==
-  \A k \in Keys : tmpl[k].src = "user" =>
-    LET t == Stored(k) u == Content[k].u n == Len(u) IN
-      /\ VSumSeq([i \in 1..n |-> VScale(n \div t[i].den, t[i].num)], n) = Zero          \* centre of geometry zero (common denominator n)
-      /\ \A i, j \in 1..n : VSub(VScale(t[j].den, t[i].num), VScale(t[i].den, t[j].num)) = VScale(t[i].den * t[j].den, VSub(u[i], u[j]))
+  \A k \in KeySpace : tmpl[k].src = "user" =>
+    LET u == Content[Base(k)].u n == Len(u) S == VSumSeq(u, n) IN
+      /\ VSumSeq([i \in 1..n |-> VScale(n \div StoredWith(k, S, i).den, StoredWith(k, S, i).num)], n) = Zero    \* centre of geometry zero (common denominator n)
+      /\ \A i \in 1..n : \A j \in (i + 1)..n :                       \* (the equation of <<j, i>> is the negated one of <<i, j>>)
+                             LET ti == StoredWith(k, S, i) tj == StoredWith(k, S, j) IN
+                               VSub(VScale(tj.den, ti.num), VScale(ti.den, tj.num)) = VScale(ti.den * tj.den, VSub(u[i], u[j]))
 \* once user data is in the tables nothing replaces it
-UserSticks == [][ /\ \A k \in Keys : tmpl[k].src = "user" => tmpl'[k] = tmpl[k]
-                  /\ \A k \in Keys : (vols[k].src = "user" /\ pc.phase = "gen") => vols'[k] = vols[k] ]_vars
+UserSticks == [][ /\ \A k \in KeySpace : tmpl[k].src = "user" => tmpl'[k] = tmpl[k]
+                  /\ \A k \in KeySpace : (vols[k].src = "user" /\ pc.phase = "gen") => vols'[k] = vols[k] ]_vars
 \* the instance respects the stated domain
-DomainOK == /\ \A k1, k2 \in Keys : (k1 # k2) => ~Iso(Content[k1].g, Content[k2].g)
+\* (residues too large for the enumeration of bijections are told apart by their canonical labelled graph: CanonLaw of TpGroup)
+SameContent(x, y) == IF x.n <= 4 THEN Iso(x, y) ELSE Canon(x) = Canon(y)
+DomainOK == /\ \A k1, k2 \in Keys : (k1 # k2) => ~SameContent(Content[k1].g, Content[k2].g)
             /\ \A k \in Keys : UniqueNames(Content[k].g) /\ Len(Content[k].u) = Content[k].g.n
-DomainOKOnce == (pc.i = 1 /\ pc.phase \in {"parse", "finalize"} /\ tmpl = [k \in Keys |-> NoTmpl]) => DomainOK
+            /\ \A k \in Keys : \A e \in Content[k].g.ed : e[1] < e[2] /\ e[2] <= Content[k].g.n
+DomainOKOnce == (pc.i = 1 /\ pc.phase # "done" /\ tmpl = [k \in KeySpace |-> NoTmpl]) => DomainOK
 =============================================================================
